@@ -11,6 +11,7 @@ git -C /repo worktree add -q --detach $WT HEAD || exit 2
 trap 'git -C /repo worktree remove --force $WT; rm -rf $VV $DM' EXIT
 mkdir -p $VV $DM; cp /verif/known_findings.json $VV/
 cp $S/demo_test.go $DM/ 2>/dev/null; cp $S/*_test.go $DM/ 2>/dev/null
+for d in $S/*/; do [ -d "$d" ] && cp -r "$d" $DM/; done
 cat > $DM/go.mod <<EOF
 module demo
 go 1.19
